@@ -24,6 +24,8 @@ theorem pin_toml_checkNoNull : Gen.C12.pin_toml_checkNoNull = "41102bb25a8d3b2a"
 -- the code of repaired defects (fixed: lines of known-findings.d/C12.txt)
 theorem pin_cue_Value_Int64 : Gen.C12.pin_cue_Value_Int64 = "b228d48ce9787d3f" := by decide
 theorem pin_cmd_buildPlan_placeOrphans : Gen.C12.pin_cmd_buildPlan_placeOrphans = "36080d5bde0cf77e" := by decide
+-- how output files are opened (O_EXCL without --force, O_TRUNC with it); exercised by harness/c12_overwrite.go
+theorem pin_encoding_writer : Gen.C12.pin_encoding_writer = "7fbebf1e946da055" := by decide
 theorem pin_ast_StringLabelNeedsQuoting : Gen.C12.pin_ast_StringLabelNeedsQuoting = "8e5531b8cb8df961" := by decide
 
 end CueVerif.Bridge.C12
